@@ -2183,6 +2183,20 @@ pub fn f_access() -> Vec<Case> {
 
 // F-BLOCKWS bases, F-DECL, F-GUARDCALL, F-ARGBLANK: small families added after the tenth round of seeded changes
 // ------------------------------------------------------------------------------------------------------------
+/// generic type packs with a default: `T... = (X)` — the default is a type pack, its parentheses are part of the syntax
+pub fn f_packdefault() -> Vec<Case> {
+    let mut v = vec![];
+    let xs = ["string", "string, number", "", "A | B", "{ number }", "(value: number) -> string", "ConnectionHandleType | DisconnectedSentinel | FallbackHandlerKind | AnotherRatherLongTypeName", "(string)", "Optional?"];
+    for x in xs {
+        v.push(case("F-PACKDEFAULT", Dial::Luau, format!("type Pack<T... = ({})> = {{}}\n", x)));
+        v.push(case("F-PACKDEFAULT", Dial::Luau, format!("export type Pack<K, T... = ({})> = {{ key: K }}\n", x)));
+        v.push(case("F-PACKDEFAULT", Dial::Luau, format!("type Pack<T... = ( {} )> = ( T... ) -> ()\n", x)));
+    }
+    v.push(case("F-PACKDEFAULT", Dial::Luau, "type Pack<T... = ...number> = {}\n"));
+    v.push(case("F-PACKDEFAULT", Dial::Luau, "type Pack<T... = U...> = {}\n"));
+    v
+}
+
 /// plain statements in whose gaps a block comment with inner trailing blanks (kind 8) is placed
 pub fn f_blockws() -> Vec<Case> {
     let bases = ["local x = 1\n", "f(a, b)\n", "return a, b\n", "do\n\tf()\nend\n", "local t = { 1, b }\n", "if a then\n\tf()\nend\n", "x.y = z + 1\n"];
